@@ -34,7 +34,9 @@ def sources(tier, seed, ctx):
     ctx['gen_note'] += f'; {len(pipes)} pipeline leaf sequences enumerated by TLC'
     srcs = []
     for n, cs in enumerate(circs):
-        for name in (P.PASSES if n % 4 == 0 else [P.PASSES[n % len(P.PASSES)]]):
+        fam = cs.get('family')
+        plist = (['MUO', 'cleanup'] if fam in ('F0', 'F1') else ['MDG', 'MEG', 'cleanup_heavy']) if fam else (P.PASSES if n % 4 == 0 else [P.PASSES[n % len(P.PASSES)]])
+        for name in plist:
             s = dict(cs)
             s['pass'] = name
             srcs.append(s)
